@@ -51,8 +51,20 @@ func Run(dir, bin string, args []string, stdin *string) Out {
 // "pipe", "file" (a regular file opened for reading, as with `< file`) or "null" (/dev/null, a
 // character device; only meaningful for empty input).
 func RunWith(dir, bin string, args []string, stdin *string, how string) Out {
+	return RunEnv(dir, bin, args, stdin, how, nil)
+}
+
+// HostileEnv is an environment in which nothing the library or the CLIs do may change: no colour wanted, a dumb
+// terminal, a locale with unusual case mapping, no home directory, a far-away time zone.
+var HostileEnv = []string{"NO_COLOR=1", "TERM=dumb", "LC_ALL=tr_TR.UTF-8", "LANG=tr_TR.UTF-8", "HOME=/nonexistent", "TZ=Pacific/Kiritimati", "CLICOLOR=0", "COLUMNS=20", "PATH=/nonexistent"}
+
+// RunEnv is RunWith with extra environment variables appended to the inherited environment.
+func RunEnv(dir, bin string, args []string, stdin *string, how string, env []string) Out {
 	cmd := exec.Command(bin, args...)
 	cmd.Dir = dir
+	if env != nil {
+		cmd.Env = append(os.Environ(), env...)
+	}
 	var so, se bytes.Buffer
 	cmd.Stdout, cmd.Stderr = &so, &se
 	if stdin != nil {
